@@ -118,7 +118,7 @@ def run_pair(res, argv_common, bam, desc, sample_name_expected=None):
             os.remove(p)
     with MainCapture() as c1:
         try:
-            with util.time_limit(300):
+            with util.time_limit(90):
                 util.run_main(["genotype", bam] + argv_common + ["--debug", prefix, "--output", out1])
         except SystemExit:
             pass
@@ -130,7 +130,7 @@ def run_pair(res, argv_common, bam, desc, sample_name_expected=None):
         return False
     with MainCapture() as c2:
         try:
-            with util.time_limit(300):
+            with util.time_limit(90):
                 util.run_main(["genotype", prefix + ".tar.gz"] + argv_common + ["--output", out2])
         except SystemExit:
             pass
